@@ -65,16 +65,17 @@ func TestC08(t *testing.T) {
 }
 
 type opRec struct {
-	Op      string   `json:"op"`
-	Target  gp.Key   `json:"target"`
-	Opt     string   `json:"opt,omitempty"`
-	Err     string   `json:"err,omitempty"`
-	Pre     *gp.Snap `json:"pre,omitempty"`
-	Post    *gp.Snap `json:"post,omitempty"`
-	Changed []string `json:"changed_keys,omitempty"`
-	Val     *gp.Snap `json:"val,omitempty"`
-	NotFound bool    `json:"not_found,omitempty"`
-	Ready   *bool    `json:"ready,omitempty"`
+	Claim    bool     `json:"claims_ownership,omitempty"` // the submitted object / the mutator names the controller itself as owner
+	Op       string   `json:"op"`
+	Target   gp.Key   `json:"target"`
+	Opt      string   `json:"opt,omitempty"`
+	Err      string   `json:"err,omitempty"`
+	Pre      *gp.Snap `json:"pre,omitempty"`
+	Post     *gp.Snap `json:"post,omitempty"`
+	Changed  []string `json:"changed_keys,omitempty"`
+	Val      *gp.Snap `json:"val,omitempty"`
+	NotFound bool     `json:"not_found,omitempty"`
+	Ready    *bool    `json:"ready,omitempty"`
 }
 
 const self = "P"
@@ -420,6 +421,17 @@ func doOp(ctx context.Context, w *rtp.World, r controller.QRuntime, rng *rand.Ra
 
 		if cur, err := w.St.Get(ctx, ptr); err == nil {
 			obj = cur
+
+			if rng.IntN(3) == 0 {
+				// a hand-built object for the same id: current version, but it names the controller itself as owner -
+				// what decides is who owns the STORED resource
+				rec.Claim = true
+				obj = res.New(rec.Target.NS, rec.Target.Type, rec.Target.ID)
+				obj.Metadata().SetVersion(cur.Metadata().Version())
+				obj.Metadata().SetPhase(cur.Metadata().Phase())
+				obj.Metadata().Finalizers().Set(slices.Clone([]string(*cur.Metadata().Finalizers())))
+				_ = obj.Metadata().SetOwner(self)
+			}
 		} else {
 			obj = res.New(rec.Target.NS, rec.Target.Type, rec.Target.ID)
 		}
@@ -441,8 +453,15 @@ func doOp(ctx context.Context, w *rtp.World, r controller.QRuntime, rng *rand.Ra
 			opts = append(opts, controller.WithExpectedPhase(resource.PhaseTearingDown))
 		}
 
+		claim := rec.Opt != "noowner" && rng.IntN(4) == 0
+		rec.Claim = claim
+
 		setErr(r.Modify(ctx, res.New(rec.Target.NS, rec.Target.Type, rec.Target.ID), func(x resource.Resource) error {
 			res.SpecOf(x).Token = tok
+
+			if claim && x.Metadata().Owner() == "" {
+				_ = x.Metadata().SetOwner(self) // an ownerless resource stays somebody else's: the mutator cannot adopt it
+			}
 
 			return nil
 		}, opts...))
